@@ -128,7 +128,7 @@ pub fn create_function_constructor(interp: &mut Interpreter) -> Gc<JsObject> {
     interp
         .function_prototype
         .borrow_mut()
-        .set_property(ctor_key, JsValue::Object(constructor.clone()));
+        .define_builtin_property(ctor_key, JsValue::Object(constructor.clone()));
 
     constructor
 }
